@@ -51,3 +51,44 @@ FACTMAP = {
     "C14": ["body_Program_Println", "body_Program_Printf", "locks"] + RENDER_BODIES,   # handleMessages / write / repaint themselves: vt stream (behavioural)
     "C06": ["locks"] + RENDER_BODIES,
 }
+
+# Ancillary functions (round 16): small functions outside the statement-by-statement mirrors whose exact text the
+# models nevertheless take for granted - what a fresh Program consists of, which start-up option sets which bit,
+# which message a mode command carries, that the renderer of WithoutRenderer does nothing, how the input is opened.
+OPTIONS_MODES = ["body_WithAltScreen", "body_WithoutBracketedPaste", "body_WithMouseCellMotion", "body_WithMouseAllMotion",
+                 "body_WithReportFocus", "body_startupOptions_has"]
+MODE_CMDS = ["body_ClearScreen", "body_EnterAltScreen", "body_ExitAltScreen", "body_EnableMouseCellMotion", "body_EnableMouseAllMotion",
+             "body_DisableMouse", "body_HideCursor", "body_ShowCursor", "body_EnableBracketedPaste", "body_DisableBracketedPaste",
+             "body_EnableReportFocus", "body_DisableReportFocus", "body_SetWindowTitle",
+             "body_Program_EnterAltScreen", "body_Program_ExitAltScreen", "body_Program_EnableMouseCellMotion",
+             "body_Program_DisableMouseCellMotion", "body_Program_EnableMouseAllMotion", "body_Program_DisableMouseAllMotion",
+             "body_Program_SetWindowTitle"]
+RENDER_SMALL = ["body_standardRenderer_execute", "body_standardRenderer_lastLinesRendered", "body_standardRenderer_setWindowTitle"]
+RENDER_QUERIES = ["body_standardRenderer_altScreen", "body_standardRenderer_bracketedPasteActive", "body_standardRenderer_reportFocus"]
+PROGRAM_NEW = ["body_NewProgram", "body_WithContext", "body_WithOutput", "body_WithInput", "body_WithInputTTY",
+               "body_WithoutCatchPanics", "body_WithoutRenderer", "body_WithEnvironment"]
+NILR = ["bodies_nilRenderer"]
+INPUT_OPEN = ["body_newInputReader", "body_readInputs", "body_openInputTTY"]
+ANCILLARY = {
+    "C01": PROGRAM_NEW + ["body_Program_Start", "body_Program_StartReturningModel"],
+    "C02": ["body_NewProgram", "body_WithoutCatchPanics"],
+    "C03": ["body_NewProgram"],
+    "C04": PROGRAM_NEW + NILR + INPUT_OPEN + ["body_Program_handlePanic", "body_channelHandlers_add", "body_Quit", "body_Interrupt",
+                                              "body_WithoutSignalHandler", "body_Program_Start", "body_Program_StartReturningModel"],
+    "C05": OPTIONS_MODES + RENDER_QUERIES + ["body_Program_handlePanic", "body_openInputTTY", "body_NewProgram", "body_WithInputTTY",
+                                             "body_WithInput", "body_WithOutput", "body_standardRenderer_execute"],
+    "C06": RENDER_SMALL + ["body_WithANSICompressor", "body_WithOutput"],
+    "C07": RENDER_SMALL + ["body_Quit", "body_WithANSICompressor"],
+    "C09": ["body_newInputReader", "body_readInputs"],
+    "C11": ["body_MouseEvent_IsWheel"],
+    "C12": OPTIONS_MODES + MODE_CMDS + RENDER_QUERIES + ["body_standardRenderer_execute", "body_standardRenderer_setWindowTitle"],
+    "C13": NILR + ["body_NewProgram", "body_Println", "body_Printf", "body_Quit"],
+    "C14": ["body_Println", "body_Printf", "body_standardRenderer_execute"],
+    "C15": ["body_newInputReader", "body_readInputs"],
+    "C16": ["body_NewProgram"],
+    "C17": RENDER_QUERIES + ["body_suspendProcess", "body_Suspend", "body_newInputReader"],
+    "C18": ["body_WithoutSignalHandler", "body_WithoutSignals", "body_WindowSize", "body_NewProgram"],
+    "C19": RENDER_SMALL + ["body_WithANSICompressor", "body_WithOutput"],
+}
+for _p, _ks in ANCILLARY.items():
+    FACTMAP[_p] = FACTMAP[_p] + [k for k in _ks if k not in FACTMAP[_p]]
